@@ -160,6 +160,64 @@ def eval_case(args):
     return out
 
 
+def eval_big(args):
+    """One message with a very long string somewhere inside it (wherever the class has a string): real code only."""
+    table, idx, n, sub_seed = args
+    m, p, _o = _mods()
+    s = table[idx]
+    rng = random.Random(sub_seed)
+    vals = wc.gen_message(rng, s)
+
+    def plant(v):
+        """replace the first string leaf by the long one; returns (new value, done)"""
+        if isinstance(v, tuple) and v and v[0] == 'S':
+            return ('S', 'x' * n), True
+        if isinstance(v, tuple) and v and v[0] == 'A':
+            items = list(v[1])
+            for k, it in enumerate(items):
+                nv, done = plant(it)
+                if done:
+                    items[k] = nv
+                    return ('A', items), True
+            return v, False
+        if isinstance(v, tuple) and v and v[0] == 'R':
+            items = list(v[2])
+            for k, it in enumerate(items):
+                nv, done = plant(it)
+                if done:
+                    items[k] = nv
+                    return ('R', v[1], items), True
+            return v, False
+        return v, False
+    done = False
+    for k, v in enumerate(vals):
+        nv, done = plant(v)
+        if done:
+            vals[k] = nv
+            break
+    if not done:
+        return {'skip': 'no-string-leaf'}
+    mon = []
+    try:
+        obj = wc.build(m, p, s, vals)
+        data = obj.serialize()
+    except Exception as e:  # noqa: BLE001
+        return {'mon': [('C01-encode-raises', f'{s["name"]}.{s["dir"]} with a string of {n} characters cannot be serialised: '
+                                               f'{type(e).__name__}: {e}')]}
+    (ln,) = struct.unpack('<I', data[:4])
+    if ln != len(data) - 4:
+        mon.append(('C01-length-prefix', f'{s["name"]}.{s["dir"]}: prefix {ln} != {len(data) - 4}'))
+    try:
+        clsname, meth = wc.FAMILY_DISPATCH[(s['family'], s['dir'])]
+        back = getattr(getattr(m, clsname), meth)(data)
+        if back != obj:
+            mon.append(('C01-roundtrip', f'{s["name"]}.{s["dir"]} with a string of {n} characters: round trip differs'))
+    except Exception as e:  # noqa: BLE001
+        mon.append(('C01-roundtrip', f'{s["name"]}.{s["dir"]} with a string of {n} characters ({len(data)} bytes on the wire): '
+                                     f'decoding its own encoding raised {type(e).__name__}: {e}'))
+    return {'mon': mon}
+
+
 def eval_obf(args):
     key, data = args
     _, _, o = _mods()
@@ -316,6 +374,28 @@ class C01(Property):
                                                               'hand-written test vector vs. model over the pinned table'))
         except (OSError, ValueError) as e:
             res.notes.append(f'test vectors not run: {e}')
+        # very large in-domain values (monitor only: the Lean driver's byte lists are not meant for 100 MB): one long string
+        # inside every message class that has one — for the compressed classes the inflated contents pass 16 / 64 / 256 MiB
+        bcases = []
+        sizes = [1 << 20, (1 << 24) + 1, (1 << 26) + 1] + ([(1 << 28) + 1] if tier != 'quick' else [])
+        bidx = [i for i, sch in enumerate(gen_table) if sch.get('compress')]
+        bidx += rng.sample([i for i, sch in enumerate(gen_table) if not sch.get('compress')], 3)
+        for i in bidx:
+            sch = gen_table[i]
+            for n in (sizes if sch.get('compress') else sizes[:2]):
+                bcases.append((gen_table, i, n, rng.randrange(1 << 30)))
+        bouts = common.parallel_map(eval_big, bcases, workers=4, chunksize=1)
+        for (_t, i, n, _sd), o in zip(bcases, bouts):
+            sch = gen_table[i]
+            res.evaluations += 1
+            res.count('big-value')
+            case = {'kind': 'big', 'class': f'{sch["name"]}.{sch["dir"]}', 'idx': i, 'string_length': n, 'sub_seed': _sd}
+            if o.get('skip'):
+                res.count('big-value-skipped:' + o['skip'])
+                continue
+            res.nontrivial_keys.add(common.sha(case))
+            for sig, what in o.get('mon', []):
+                res.violations.append(Violation(sig, what, case))
         # obfuscation
         ocases = []
         n_obf = (1500 if tier == 'quick' else 20000) * widen
@@ -355,6 +435,9 @@ class C01(Property):
             e, d = eval_obf((key, data))
             return [] if d == wc.hexs(data) else [Violation('C01-obfuscation-roundtrip', 'decode(encode(x)) != x', case, observed=d)]
         idx = next((i for i, s in enumerate(table) if f'{s["name"]}.{s["dir"]}' == case['class']), case['idx'])
+        if case.get('kind') == 'big':
+            o = eval_big((table, idx, case['string_length'], case['sub_seed']))
+            return [Violation(sig, what, case) for sig, what in o.get('mon', [])]
         vals = wc.parse_message(case['values'], table[idx])
         o = eval_case((table, idx, vals))
         vs = [Violation(sig, what, case, observed=obs) for sig, what, obs in o.get('mon', [])]
